@@ -117,7 +117,13 @@ def _mul_ens(A, c, r):
             ("dtype = promote", np.dtype(r.dtype) == dt)]
 
 
-mul = Contract("mul", requires=lambda A, c: [], result=_mul_res, ensures=_mul_ens, props=("C03",))
+def _mul_req(A, c):
+    if is_op(A) and is_op(c):
+        return [("same square shape", z3.And(deq(A.shape[0], c.shape[0]), deq(A.shape[1], c.shape[1]), square(A)))]
+    return []
+
+
+mul = Contract("mul", requires=_mul_req, result=_mul_res, ensures=_mul_ens, props=("C03",))
 
 transpose = Contract(
     "transpose", requires=lambda A: [],
